@@ -64,7 +64,7 @@ Lemma pow64 : 2 ^ 64 = 18446744073709551616. Proof. reflexivity. Qed.
 
 Lemma buf_len_ok c : cur_ok c -> buf_len c = Ok (c_len c - c_off c).
 Proof.
-  intros (Ho & Hl & Hb). unfold buf_len, c_ares_buf_len.
+  intros (Ho & Hl & Hb & _). unfold buf_len, c_ares_buf_len.
   rewrite Z.mod_small; [reflexivity | rewrite pow64 in *; lia].
 Qed.
 
@@ -81,10 +81,27 @@ Lemma same_block_trans a b c : same_block a b -> same_block b c -> same_block a 
 Proof. intros [H1 H2] [H3 H4]. split; congruence. Qed.
 
 Lemma cur_ok_set_off c o : cur_ok c -> 0 <= o <= c_len c -> cur_ok (set_off c o).
-Proof. intros (Ho & Hl & Hb) H. repeat split; simpl; lia. Qed.
+Proof. intros (Ho & Hl & Hb & _) H. repeat split; simpl; lia. Qed.
 
-Lemma set_off_id c : set_off c (c_off c) = c.
-Proof. destruct c; reflexivity. Qed.
+Lemma set_off_id c : cur_ok c -> set_off c (c_off c) = c.
+Proof. intros (_ & _ & _ & Hr). destruct c; unfold set_off; simpl in *. rewrite Hr. reflexivity. Qed.
+
+Lemma skipn_skipn' {A} (l : list A) : forall a b, skipn b (skipn a l) = skipn (a + b) l.
+Proof.
+  induction l as [|x l IH]; intros a b.
+  - rewrite !skipn_nil. reflexivity.
+  - destruct a; [reflexivity | simpl; apply IH].
+Qed.
+
+(* the incremental move agrees with recomputing the suffix *)
+Lemma move_off_set_off c n : cur_ok c -> 0 <= n -> move_off c n (c_off c + n) = set_off c (c_off c + n).
+Proof.
+  intros Hc Hn. unfold move_off.
+  destruct (c_off c + n =? c_off c) eqn:E.
+  - apply Z.eqb_eq in E. rewrite E. symmetry. apply set_off_id. assumption.
+  - destruct Hc as (Ho & _ & _ & Hr). unfold set_off. rewrite Hr. f_equal.
+    rewrite skipn_skipn'. f_equal. lia.
+Qed.
 
 (* ares_buf_consume: fails (buffer unchanged) iff fewer than n octets remain *)
 Lemma consume_spec c n :
@@ -94,9 +111,10 @@ Proof.
   intros Hc Hn. unfold consume. rewrite (buf_len_ok c Hc). simpl.
   unfold c_ares_buf_consume.
   destruct (c_len c - c_off c <? n) eqn:E; simpl.
-  - rewrite set_off_id. reflexivity.
-  - apply Z.ltb_ge in E. destruct Hc as (Ho & Hl & Hb).
-    rewrite Z.mod_small; [reflexivity | rewrite pow64 in *; lia].
+  - unfold move_off. rewrite Z.eqb_refl. reflexivity.
+  - apply Z.ltb_ge in E. pose proof Hc as (Ho & Hl & Hb & _).
+    rewrite Z.mod_small by (rewrite pow64 in *; lia).
+    rewrite move_off_set_off by assumption. reflexivity.
 Qed.
 
 Lemma checked_consume_spec c n :
@@ -108,20 +126,30 @@ Proof.
 Qed.
 
 Lemma set_position_spec c idx :
+  cur_ok c ->
   set_position c idx = Ok (if idx >? c_len c then (ARES_EFORMERR, c) else (ARES_SUCCESS, set_off c idx)).
 Proof.
-  unfold set_position, c_ares_buf_set_position.
-  destruct (idx >? c_len c); simpl; [rewrite set_off_id|]; reflexivity.
+  intros Hc. unfold set_position, c_ares_buf_set_position.
+  destruct (idx >? c_len c); simpl.
+  - rewrite Z.eqb_refl. reflexivity.
+  - destruct (idx =? c_off c) eqn:E; [|reflexivity].
+    apply Z.eqb_eq in E. subst idx. rewrite set_off_id by assumption. reflexivity.
 Qed.
 
 (* ---- raw memory ---- *)
 
-Lemma byte_at_ok c i :
-  cur_ok c -> 0 <= i < c_len c -> exists b, byte_at c i = Ok b /\ 0 <= b.
+Lemma nth_error_skipn {A} (l : list A) : forall n k, nth_error (skipn n l) k = nth_error l (n + k).
 Proof.
-  intros (Ho & Hl & Hb) Hi. unfold byte_at.
-  destruct (i <? 0) eqn:E; [apply Z.ltb_lt in E; lia|].
-  destruct (nth_error (c_data c) (Z.to_nat i)) eqn:En.
+  induction l as [|x l IH]; intros n k.
+  - rewrite skipn_nil. destruct k, n; reflexivity.
+  - destruct n; [reflexivity | simpl; apply IH].
+Qed.
+
+Lemma byte_rel_ok c k :
+  cur_ok c -> c_off c + Z.of_nat k < c_len c -> exists b, byte_rel c k = Ok b /\ 0 <= b.
+Proof.
+  intros (Ho & Hl & Hb & Hr) Hi. unfold byte_rel. rewrite Hr, nth_error_skipn.
+  destruct (nth_error (c_data c) (Z.to_nat (c_off c) + k)) eqn:En.
   - eexists; split; [reflexivity | lia].
   - apply nth_error_None in En. lia.
 Qed.
@@ -144,15 +172,14 @@ Proof.
     destruct (IH t l E) as [-> Hl]. split; [reflexivity | simpl; lia].
 Qed.
 
-Lemma read_bytes_ok c start n :
-  cur_ok c -> 0 <= start -> start + Z.of_nat n <= c_len c ->
-  exists l, read_bytes c start n = Ok l /\ length l = n.
+Lemma read_bytes_ok c n :
+  cur_ok c -> c_off c + Z.of_nat n <= c_len c ->
+  exists l, read_bytes c n = Ok l /\ length l = n.
 Proof.
-  intros (Ho & Hl & Hb) Hs He. unfold read_bytes.
-  destruct (start <? 0) eqn:E; [apply Z.ltb_lt in E; lia|].
-  destruct (take_exact_ok n (skipn (Z.to_nat start) (c_data c))) as (r & Hr & Hlen).
-  { rewrite skipn_length. lia. }
-  rewrite Hr. eauto.
+  intros (Ho & Hl & Hb & Hr) He. unfold read_bytes.
+  destruct (take_exact_ok n (c_rest c)) as (r & Hrr & Hlen).
+  { rewrite Hr, skipn_length. lia. }
+  rewrite Hrr. eauto.
 Qed.
 
 (* ---- fetch functions ---- *)
@@ -176,7 +203,7 @@ Proof.
   intros Hc. unfold fetch_u8, fetch_remaining. rewrite (buf_len_ok c Hc). simpl.
   destruct (c_len c - c_off c <? 1) eqn:E; [simpl; status_ne|].
   apply Z.ltb_ge in E.
-  destruct (byte_at_ok c (c_off c) Hc) as (b & Hb & Hb0); [destruct Hc; lia|].
+  destruct (byte_rel_ok c 0 Hc) as (b & Hb & Hb0); [destruct Hc; lia|].
   rewrite Hb. simpl.
   rewrite (checked_consume_spec c 1 Hc) by lia.
   destruct (c_len c - c_off c <? 1) eqn:E2; [apply Z.ltb_lt in E2; lia|].
@@ -189,8 +216,8 @@ Proof.
   intros Hc. unfold fetch_be16, fetch_remaining. rewrite (buf_len_ok c Hc). simpl.
   destruct (c_len c - c_off c <? 2) eqn:E; [simpl; status_ne|].
   apply Z.ltb_ge in E.
-  destruct (byte_at_ok c (c_off c) Hc) as (b0 & Hb0 & ?); [destruct Hc; lia|].
-  destruct (byte_at_ok c (c_off c + 1) Hc) as (b1 & Hb1 & ?); [destruct Hc; lia|].
+  destruct (byte_rel_ok c 0 Hc) as (b0 & Hb0 & ?); [destruct Hc; lia|].
+  destruct (byte_rel_ok c 1 Hc) as (b1 & Hb1 & ?); [destruct Hc; lia|].
   rewrite Hb0, Hb1. simpl.
   rewrite (checked_consume_spec c 2 Hc) by lia.
   destruct (c_len c - c_off c <? 2) eqn:E2; [apply Z.ltb_lt in E2; lia|].
@@ -206,10 +233,10 @@ Proof.
   intros Hc. unfold fetch_be32, fetch_remaining. rewrite (buf_len_ok c Hc). simpl.
   destruct (c_len c - c_off c <? 4) eqn:E; [simpl; status_ne|].
   apply Z.ltb_ge in E.
-  destruct (byte_at_ok c (c_off c) Hc) as (b0 & Hb0 & ?); [destruct Hc; lia|].
-  destruct (byte_at_ok c (c_off c + 1) Hc) as (b1 & Hb1 & ?); [destruct Hc; lia|].
-  destruct (byte_at_ok c (c_off c + 2) Hc) as (b2 & Hb2 & ?); [destruct Hc; lia|].
-  destruct (byte_at_ok c (c_off c + 3) Hc) as (b3 & Hb3 & ?); [destruct Hc; lia|].
+  destruct (byte_rel_ok c 0 Hc) as (b0 & Hb0 & ?); [destruct Hc; lia|].
+  destruct (byte_rel_ok c 1 Hc) as (b1 & Hb1 & ?); [destruct Hc; lia|].
+  destruct (byte_rel_ok c 2 Hc) as (b2 & Hb2 & ?); [destruct Hc; lia|].
+  destruct (byte_rel_ok c 3 Hc) as (b3 & Hb3 & ?); [destruct Hc; lia|].
   rewrite Hb0, Hb1, Hb2, Hb3. simpl.
   rewrite (checked_consume_spec c 4 Hc) by lia.
   destruct (c_len c - c_off c <? 4) eqn:E2; [apply Z.ltb_lt in E2; lia|].
@@ -226,7 +253,7 @@ Proof.
   destruct (len =? 0) eqn:E0; [simpl; status_ne|]. apply Z.eqb_neq in E0.
   destruct (c_len c - c_off c <? len) eqn:E; [simpl; status_ne|].
   apply Z.ltb_ge in E. simpl.
-  destruct (read_bytes_ok c (c_off c) (Z.to_nat len) Hc) as (l & Hl & Hll); [destruct Hc; lia | lia |].
+  destruct (read_bytes_ok c (Z.to_nat len) Hc) as (l & Hl & Hll); [lia|].
   rewrite Hl. simpl.
   rewrite (checked_consume_spec c len Hc) by lia.
   destruct (c_len c - c_off c <? len) eqn:E2; [apply Z.ltb_lt in E2; lia|].
@@ -238,7 +265,7 @@ Lemma peek_bytes_ok c len :
   exists l, peek_bytes c len = Ok l /\ Z.of_nat (length l) = len.
 Proof.
   intros Hc Hl Hle. unfold peek_bytes.
-  destruct (read_bytes_ok c (c_off c) (Z.to_nat len) Hc) as (l & Hr & Hll); [destruct Hc; lia | lia |].
+  destruct (read_bytes_ok c (Z.to_nat len) Hc) as (l & Hr & Hll); [lia|].
   exists l. split; [assumption | lia].
 Qed.
 
@@ -250,7 +277,7 @@ Proof.
   destruct (len =? 0) eqn:E0; [simpl; status_ne|]. apply Z.eqb_neq in E0.
   destruct (c_len c - c_off c <? len) eqn:E; [simpl; status_ne|].
   apply Z.ltb_ge in E. simpl.
-  destruct (read_bytes_ok c (c_off c) (Z.to_nat len) Hc) as (l & Hl & Hll); [destruct Hc; lia | lia |].
+  destruct (read_bytes_ok c (Z.to_nat len) Hc) as (l & Hl & Hll); [lia|].
   rewrite Hl. simpl.
   destruct (all_printable l); simpl; [|status_ne].
   rewrite (checked_consume_spec c len Hc) by lia.
